@@ -1,10 +1,11 @@
 #!/bin/bash
 # tools/seed_check.sh <patch.diff> <PROP> [<PROP>...]: apply a seeded change to a scratch worktree of /repo, confirm it builds
 # and passes the repository's tests, then run the named checks against it (VERIF_REPO). Prints one line per check.
+# BASE=<commit> applies the patch to that commit of /repo instead of HEAD (seeded patches name their base in meta.json).
 set -u
 patch=$1; shift
 wt=$(mktemp -d /tmp/wt-seed-XXXXXX)
-git -C /repo worktree add -q --detach "$wt" HEAD || exit 2
+git -C /repo worktree add -q --detach "$wt" "${BASE:-HEAD}" || exit 2
 if ! git -C "$wt" apply --whitespace=nowarn "$patch" 2>/tmp/seed_apply_err.txt; then
   echo "PATCH-DOES-NOT-APPLY $(head -2 /tmp/seed_apply_err.txt)"; git -C /repo worktree remove --force "$wt"; exit 2
 fi
